@@ -24,7 +24,7 @@ BATCH = 1
 TIMEOUT = 600
 REQUIRED_OBS = ["grain_rates_compared", "model_hh93", "model_hh93i", "model_rr07", "model_rr07x", "refusals_checked", "kind_freeze", "kind_thermal",
                 "kind_photon", "kind_cosmicray", "kind_surface", "kind_recombine", "kind_ecapture", "kind_h2", "kind_reactive", "mantle_zero_points",
-                "user_binding_energy_species"]
+                "user_binding_energy_species", "override_after_first_render_checked"]
 RULE = ("per case one (format, dust model) pair: leeds x {hh93, hh93i}, uclchem x {rr07, rr07x}; a file with every grain reaction type "
         "the pair supports over 3-6 species of different mass, binding energy (RATE12 table or user table override) and yield (default "
         "or user override), plus requests the model does not implement (must raise); 4 parameter points with all NaunetData grain "
@@ -262,5 +262,23 @@ def run_case(case, ctx):
                 obs["binding_energy_constants_checked"] += 1
                 if c != spd["eb"]:
                     viol.append(violation("binding_energy_constant", f"eb_G{g}I = {c!r}, expected {spd['eb']!r} (user table {g in case['user_eb']})"))
+    # ---- multi-step: a binding-energy override registered after the first rendering must show in the next rendering of the same Network
+    try:
+        g = case["gas"][0]
+        new_eb = round(case["species"][g]["eb"] * 1.37 + 11.0, 1)
+        Species.reset()
+        net2 = Network(filelist=str(work / f"net_main.{fmt}"), fileformats=fmt, grain_model=model)
+        net2.to_code(method="dense", path=str(work / "seq1"))
+        chemistrydata.update_binding_energy({pref + g: new_eb})
+        net2.to_code(method="dense", path=str(work / "seq2"))
+        import re as _re
+        txt = (work / "seq2" / "src" / "naunet_constants.cpp").read_text()
+        m = _re.search(rf"double eb_G{g}I\s*=\s*([-+0-9.eE]+);", txt)
+        obs["override_after_first_render_checked"] += 1
+        if not m or float(m.group(1)) != new_eb:
+            viol.append(violation("binding_energy_override_ignored", f"{fmt}+{model}: update_binding_energy({pref + g}={new_eb}) after a first rendering: second "
+                                  f"rendering has eb_G{g}I = {m.group(1) if m else None}"))
+    except Exception as e:
+        viol.append(violation("generator_raised", f"re-render after binding-energy override: {type(e).__name__}: {e}"))
     sample = {"pair": [fmt, model], "lines": lines[:4], "kinds": sorted(kinds), "user_eb": case["user_eb"], "user_yield": case["user_yield"]}
     return {"status": "violated" if viol else "held", "violations": viol[:8], "obs": dict(obs), "nontrivial": len(kinds) >= 4, "sample": sample}
